@@ -311,32 +311,121 @@ Section S.
   Qed.
 End S.
 
-Theorem spec_model : forall i, spec i (model i) = true.
+(* ---- provider options: which key set / algorithms the hint verifier ends up with ---- *)
+Lemma fold_hint_keys opts : forall v,
+  v_hint_keys (fold_left apply_opt opts v) =
+  match last_hint_keys opts with Some k => k | None => v_hint_keys v end.
 Proof.
-  intros [d ts cs t reqs]. cbn [model spec].
-  induction reqs as [|x reqs IH]; cbn [map spec_list]; [reflexivity|].
-  rewrite spec_out_model, IH. reflexivity.
+  induction opts as [|o rest IH]; intro v; cbn [fold_left last_hint_keys]; [reflexivity|].
+  rewrite IH. destruct (last_hint_keys rest); [reflexivity|]. destruct o; reflexivity.
 Qed.
 
-(* a really signed hint of another issuer - e.g. another host of the same provider - is rejected *)
-Theorem foreign_issuer_rejected pmatch uparse d ts cs (x : ereq) key iss ex sub azp :
-  r_tok x = TSigned key iss ex sub azp -> iss <> r_issuer x ->
-  exists s c, end_session pmatch uparse d ts cs (r_router x) (to_esreq x) = EPage s c None.
+Lemma fold_hint_algs opts : forall v,
+  v_hint_algs (fold_left apply_opt opts v) =
+  match last_hint_algs opts with Some a => a | None => v_hint_algs v end.
 Proof.
-  intros Ht Hn. apply hint_rules. unfold to_esreq, classify. cbn. rewrite Ht.
+  induction opts as [|o rest IH]; intro v; cbn [fold_left last_hint_algs]; [reflexivity|].
+  rewrite IH. destruct (last_hint_algs rest); [reflexivity|]. destruct o; reflexivity.
+Qed.
+
+(* after ALL options ran, the hint verifier's key set is the one of the last
+   WithIDTokenHintKeySet, else the storage's; likewise its algorithms *)
+Theorem hint_keyset_designated opts :
+  v_hint_keys (configure opts) = designated_keys opts /\
+  v_hint_algs (configure opts) = designated_algs opts.
+Proof.
+  unfold configure, designated_keys, designated_algs. rewrite fold_hint_keys, fold_hint_algs.
+  split; [destruct (last_hint_keys opts)|destruct (last_hint_algs opts)]; reflexivity.
+Qed.
+
+Lemma model_spec_esreq opts x : model_esreq opts x = spec_esreq opts x.
+Proof.
+  unfold model_esreq, spec_esreq. destruct (hint_keyset_designated opts) as [-> ->]. reflexivity.
+Qed.
+
+(* the options about access tokens *)
+Definition at_opt (o : popt) : bool :=
+  match o with OptATKeys _ | OptATAlgs _ => true | _ => false end.
+
+Lemma last_hint_keys_filter opts :
+  last_hint_keys (filter (fun o => negb (at_opt o)) opts) = last_hint_keys opts.
+Proof.
+  induction opts as [|o rest IH]; [reflexivity|]. destruct o; cbn; rewrite ?IH; try reflexivity;
+    match goal with |- context [match ?e with _ => _ end] => destruct e end; reflexivity.
+Qed.
+
+Lemma last_hint_algs_filter opts :
+  last_hint_algs (filter (fun o => negb (at_opt o)) opts) = last_hint_algs opts.
+Proof.
+  induction opts as [|o rest IH]; [reflexivity|]. destruct o; cbn; rewrite ?IH; try reflexivity;
+    match goal with |- context [match ?e with _ => _ end] => destruct e end; reflexivity.
+Qed.
+
+(* WithAccessTokenKeySet / WithAccessTokenVerifierOpts - wherever they stand among the options,
+   whatever key set they carry - change nothing about how a hint is judged *)
+Theorem access_token_options_irrelevant opts x :
+  model_esreq (filter (fun o => negb (at_opt o)) opts) x = model_esreq opts x.
+Proof.
+  rewrite !model_spec_esreq. unfold spec_esreq, designated_keys, designated_algs.
+  rewrite last_hint_keys_filter, last_hint_algs_filter. reflexivity.
+Qed.
+
+Theorem spec_model : forall i, spec i (model i) = true.
+Proof.
+  intros [d ts opts cs t reqs]. cbn [model spec].
+  induction reqs as [|x reqs IH]; cbn [map spec_list]; [reflexivity|].
+  rewrite model_spec_esreq, spec_out_model, IH. reflexivity.
+Qed.
+
+(* a really signed hint of another issuer - e.g. another host of the same provider - is rejected,
+   whatever the options *)
+Theorem foreign_issuer_rejected pmatch uparse d ts cs opts (x : ereq) key alg iss ex sub azp :
+  r_tok x = TSigned key alg iss ex sub azp -> iss <> r_issuer x ->
+  exists s c, end_session pmatch uparse d ts cs (r_router x) (model_esreq opts x) = EPage s c None.
+Proof.
+  intros Ht Hn. apply hint_rules. unfold model_esreq, to_esreq, classify. cbn. rewrite Ht.
   destruct (String.eqb iss (r_issuer x)) eqn:E; [apply String.eqb_eq in E; contradiction|reflexivity].
 Qed.
 
-(* a hint signed with a key the storage does not publish while the request is served - never
-   published, or published for an earlier request and withdrawn since - is rejected *)
-Theorem withdrawn_key_rejected pmatch uparse d ts cs (x : ereq) key iss ex sub azp :
-  r_tok x = TSigned key iss ex sub azp -> ~ In key (r_keys x) ->
-  exists s c, end_session pmatch uparse d ts cs (r_router x) (to_esreq x) = EPage s c None.
+(* a hint signed with a key that the key set DESIGNATED for hints does not trust while the
+   request is served is rejected - in particular a key that only the access-token key set trusts *)
+Theorem untrusted_key_rejected pmatch uparse d ts cs opts (x : ereq) key alg iss ex sub azp :
+  r_tok x = TSigned key alg iss ex sub azp ->
+  ks_trusts (designated_keys opts) (r_keys x) key = false ->
+  exists s c, end_session pmatch uparse d ts cs (r_router x) (model_esreq opts x) = EPage s c None.
 Proof.
-  intros Ht Hn. apply hint_rules. unfold to_esreq, classify. cbn. rewrite Ht.
-  destruct (string_in key (r_keys x)) eqn:E; [|rewrite andb_false_r; reflexivity].
+  intros Ht Hn. apply hint_rules. rewrite model_spec_esreq. unfold spec_esreq, to_esreq, classify. cbn.
+  rewrite Ht, Hn, andb_false_r. reflexivity.
+Qed.
+
+(* a hint signed with an algorithm outside the list configured for the hint verifier is rejected *)
+Theorem unsupported_alg_rejected pmatch uparse d ts cs opts (x : ereq) key alg iss ex sub azp :
+  r_tok x = TSigned key alg iss ex sub azp ->
+  alg_allowed (designated_algs opts) alg = false ->
+  exists s c, end_session pmatch uparse d ts cs (r_router x) (model_esreq opts x) = EPage s c None.
+Proof.
+  intros Ht Hn. apply hint_rules. rewrite model_spec_esreq. unfold spec_esreq, to_esreq, classify. cbn.
+  rewrite Ht, Hn, andb_false_r. reflexivity.
+Qed.
+
+Lemma string_in_false x l : ~ In x l -> string_in x l = false.
+Proof.
+  intro Hn. destruct (string_in x l) eqn:E; [|reflexivity].
   exfalso. apply Hn. unfold string_in in E. apply existsb_exists in E as [y [Hy He]].
   apply String.eqb_eq in He. now subst.
+Qed.
+
+(* without any WithIDTokenHintKeySet - whatever WithAccessTokenKeySet was given - a hint signed with
+   a key the storage does not publish while the request is served (never published: a foreign
+   key; or published for an earlier request and withdrawn since) is rejected *)
+Theorem withdrawn_key_rejected pmatch uparse d ts cs opts (x : ereq) key alg iss ex sub azp :
+  last_hint_keys opts = None ->
+  r_tok x = TSigned key alg iss ex sub azp -> ~ In key (r_keys x) ->
+  exists s c, end_session pmatch uparse d ts cs (r_router x) (model_esreq opts x) = EPage s c None.
+Proof.
+  intros Ho Ht Hn. eapply untrusted_key_rejected; [exact Ht|].
+  unfold designated_keys. rewrite Ho. unfold ks_trusts, ks_storage. cbn.
+  rewrite (string_in_false _ _ Hn). reflexivity.
 Qed.
 
 (* ---- non-vacuity ---- *)
@@ -357,3 +446,15 @@ Example C18_nonvacuous_unregistered :
     {| e_hint := HNone; e_client := "web"; e_uri := "https://evil.example/bye"; e_state := ""; e_fault := EF_None |}
   = EPage 400 "invalid_request" None.
 Proof. vm_compute. reflexivity. Qed.
+
+(* the configuration of seed C18-I's demonstration: only the access-token key set is customised
+   (own keys + a partner's key "fk"); a hint signed with "fk" is not validly signed *)
+Example C18_nonvacuous_access_token_keyset :
+  let opts := [OptATKeys {| ks_own := true; ks_fixed := ["fk"] |}] in
+  let x := {| r_router := Legacy; r_issuer := "https://op.example.com"; r_keys := ["k1"];
+              r_tok := TSigned "fk" "ES256" "https://op.example.com" false "alice" "web";
+              r_client := ""; r_uri := "https://app.example.com/bye"; r_state := ""; r_fault := EF_None |} in
+  end_session ex_pm ex_up "/logged-out" TS_Absent ex_cs Legacy (model_esreq opts x) = EPage 400 "invalid_request" None
+  /\ end_session ex_pm ex_up "/logged-out" TS_Absent ex_cs Legacy (model_esreq (opts ++ [OptHintKeys {| ks_own := true; ks_fixed := ["fk"] |}]) x)
+     = ERedirect "https://app.example.com/bye" ("alice", "web").
+Proof. vm_compute. split; reflexivity. Qed.
